@@ -239,8 +239,7 @@ pub fn scan_source(src: &str, stats: &mut ScanStats, seen: &mut BTreeSet<String>
 }
 
 /// scan the expansions of the C05 crates; returns evidence extras and violations
-pub fn structural_scan(env: &Env, res: &CfResult) -> Result<(Value, Vec<CViol>), String> {
-    let units = vmodel::cf::c05_units();
+pub fn structural_scan(env: &Env, res: &CfResult, units: &[Unit]) -> Result<(Value, Vec<CViol>), String> {
     let mut stats = ScanStats::default();
     let mut seen = BTreeSet::new();
     let flags = |unit: &str| -> Option<bool> {
